@@ -221,6 +221,8 @@ __CPROVER_requires(GHOST_RANGE_IN && RX_MEM(s) && RX_LINK(s))
 __CPROVER_requires(len >= 1 && (long)RB(s).wire_len + (long)len <= (long)MBUF_WIRE_MAX)
 __CPROVER_assigns(RX_ASSIGNS(s))
 RX_ASSIGNS_MEM(s)
+/* PO[C06] buffer_receive.eof_reported: the call in which the lower layer reports end of stream returns 0 (never EAGAIN) */
+__CPROVER_ensures((xv_rx_eof && !__CPROVER_old(xv_rx_eof)) ==> __CPROVER_return_value == 0)
 __CPROVER_ensures(__CPROVER_return_value >= -1 && __CPROVER_return_value <= 1)
 __CPROVER_ensures(MBUF_SHAPE(RB(s)) && LOWER_DEAD_MONOTONE && (__CPROVER_old(xv_rx_eof) ==> xv_rx_eof))
 __CPROVER_ensures(xv_rx_off >= __CPROVER_old(xv_rx_off) && xv_rx_off <= __CPROVER_old(xv_rx_off) + (long)len)
@@ -241,6 +243,8 @@ __CPROVER_requires(__CPROVER_is_fresh(s, XF_SIZE))
 __CPROVER_requires(GHOST_RANGE_IN && RX_MEM(s) && RX_LINK(s))
 __CPROVER_assigns(RX_ASSIGNS(s))
 RX_ASSIGNS_MEM(s)
+/* PO[C06] buffer_hdr.eof_reported: the call in which the lower layer reports end of stream returns 0 (never EAGAIN) */
+__CPROVER_ensures((xv_rx_eof && !__CPROVER_old(xv_rx_eof)) ==> __CPROVER_return_value == 0)
 __CPROVER_ensures(__CPROVER_return_value >= -1 && __CPROVER_return_value <= 1)
 __CPROVER_ensures(MBUF_SHAPE(RB(s)) && LOWER_DEAD_MONOTONE && (__CPROVER_old(xv_rx_eof) ==> xv_rx_eof))
 __CPROVER_ensures(xv_rx_off >= __CPROVER_old(xv_rx_off) && xv_rx_off <= __CPROVER_old(xv_rx_off) + 4)
@@ -260,6 +264,8 @@ __CPROVER_requires(CNT_RANGE_IN(s) && GHOST_RANGE_IN && RX_MEM(s) && RX_LINK(s))
 __CPROVER_requires(RB(s).wire_len >= 4 && !XF(s)->conn.bad && (HDR_OK(XHDR(RB(s).wire_data)) ? RB(s).wire_len - 4 < XHDR(RB(s).wire_data) : RB(s).wire_len == 4))
 __CPROVER_assigns(RX_ASSIGNS(s), XF(s)->conn.bad, XF(s)->conn.badness_reason, CN(s, from_lower_bytes), CN(s, from_lower_msgs))
 RX_ASSIGNS_MEM(s)
+/* PO[C06] buffer_payload.eof_reported: the call in which the lower layer reports end of stream returns 0 (never EAGAIN) */
+__CPROVER_ensures((xv_rx_eof && !__CPROVER_old(xv_rx_eof)) ==> __CPROVER_return_value == 0)
 __CPROVER_ensures(__CPROVER_return_value >= -1 && __CPROVER_return_value <= 1)
 __CPROVER_ensures(MBUF_SHAPE(RB(s)) && LOWER_DEAD_MONOTONE && (__CPROVER_old(xv_rx_eof) ==> xv_rx_eof))
 __CPROVER_ensures(xv_rx_off >= __CPROVER_old(xv_rx_off) && xv_rx_off <= __CPROVER_old(xv_rx_off) + (long)MBUF_MSG_MAX)
@@ -286,6 +292,8 @@ __CPROVER_requires(__CPROVER_is_fresh(s, XF_SIZE))
 __CPROVER_requires(CNT_RANGE_IN(s) && GHOST_RANGE_IN && RX_MEM(s) && RX_SHAPE(s) && RX_LINK(s) && !XF(s)->conn.bad)
 __CPROVER_assigns(RX_ASSIGNS(s), XF(s)->conn.bad, XF(s)->conn.badness_reason, CN(s, from_lower_bytes), CN(s, from_lower_msgs))
 RX_ASSIGNS_MEM(s)
+/* PO[C06] buffer_msg.eof_reported: the call in which the lower layer reports end of stream returns 0 (never EAGAIN) */
+__CPROVER_ensures((xv_rx_eof && !__CPROVER_old(xv_rx_eof)) ==> __CPROVER_return_value == 0)
 __CPROVER_ensures(__CPROVER_return_value >= -1 && __CPROVER_return_value <= 1)
 __CPROVER_ensures(MBUF_SHAPE(RB(s)) && LOWER_DEAD_MONOTONE && (__CPROVER_old(xv_rx_eof) ==> xv_rx_eof))
 __CPROVER_ensures(xv_rx_off >= __CPROVER_old(xv_rx_off) && xv_rx_off <= __CPROVER_old(xv_rx_off) + (long)MBUF_WIRE_MAX)
@@ -324,6 +332,8 @@ __CPROVER_assigns(RB(s).wire_capacity > 0: __CPROVER_object_whole(RB(s).wire_dat
 __CPROVER_assigns(XF(s)->conn.bad, XF(s)->conn.badness_reason, CN(s, from_lower_bytes), CN(s, from_lower_msgs), CN(s, to_app_bytes), CN(s, to_app_msgs))
 __CPROVER_assigns(__CPROVER_object_whole(buf))
 __CPROVER_frees(RB(s).wire_data)
+/* PO[C06] receive.eof_reported: the call in which the lower layer reports end of stream returns 0 (never EAGAIN) */
+__CPROVER_ensures((xv_rx_eof && !__CPROVER_old(xv_rx_eof)) ==> __CPROVER_return_value == 0)
 /* PO[C02,C07] receive.bounds: never more than capacity, never more than the maximum message size */
 __CPROVER_ensures(__CPROVER_return_value >= -1 && (__CPROVER_return_value > 0 ==> ((size_t)__CPROVER_return_value <= capacity && __CPROVER_return_value <= MBUF_MSG_MAX)))
 __CPROVER_ensures(xv_rx_off >= __CPROVER_old(xv_rx_off) && xv_rx_off <= __CPROVER_old(xv_rx_off) + (long)MBUF_WIRE_MAX)
